@@ -84,6 +84,7 @@ class MediaList(cssutils.util._NewListBase):
         return self._seq[self._seqindex(index)].value
 
     def __delitem__(self, index):
+        self._checkReadonly()
         del self._seq[self._seqindex(index)]
 
     def _getMediaText(self):
